@@ -132,3 +132,85 @@ KERNELS += [
     K("src_c04_step_applied", "src/program/solver.cpp",
       r"state\.m_u\s*\+=\s*(\w+)\s*\*\s*du\s*;", [], [("s", "Z")], "c04", ["C04"]),
 ]
+
+# ---- the Newton iteration of solve_with_inequality / program_t::update (C04_Iter_Defs.v) --------------------------------
+# integer guards and loop tests are translated as they are; comparisons of doubles are translated as order formulas over Z and
+# instantiated by the model at order embeddings of the rational quantities (squares for the residual norms, C04_Iter_Defs.v);
+# vector expressions (the trial point, the right-hand side of the stage-2 test) are atoms pinned by their text.
+_UPD = r"void\s+update\s*\(const tvector&\s*x,\s*const tvector&\s*u,\s*const tvector&\s*v,\s*const scalar_t miu,\s*solver_state_t&\s*state\)\s*const\s*\{"
+_SWI = r"solver_state_t\s+solver_t::solve_with_inequality\s*\("
+KERNELS += [
+    # program_t::update: `if (m > 0) state.m_eta = -u.dot(m_G * x - m_h);`
+    K("src_c04_upd_gap_guard", "src/program/solver.cpp",
+      _UPD + r".*?\bif\s*\((m\s*>\s*0)\)\s*\{\s*state\.m_eta\s*=\s*-u\.dot\(m_G \* x - m_h\)\s*;",
+      [], [("m", "Z")], "c04", ["C04"]),
+    # `if (p > 0) { m_rdual += A' v; m_rprim = A x - b; }`
+    K("src_c04_upd_eq_guard", "src/program/solver.cpp",
+      _UPD + r".*?\bif\s*\((p\s*>\s*0)\)\s*\{\s*state\.m_rdual\s*\+=\s*m_A\.transpose\(\)\s*\*\s*v\s*;\s*state\.m_rprim\s*=\s*m_A \* x - m_b\s*;",
+      [], [("p", "Z")], "c04", ["C04"]),
+    # `if (m > 0) { sm = m; m_rdual += G' u; m_rcent = -eta / (miu * sm) - u .* (G x - h); }`
+    K("src_c04_upd_ineq_guard", "src/program/solver.cpp",
+      _UPD + r".*?\bif\s*\((m\s*>\s*0)\)\s*\{\s*const auto sm\s*=\s*static_cast<scalar_t>\(m\)\s*;\s*state\.m_rdual\s*\+=\s*m_G\.transpose\(\)\s*\*\s*u\s*;"
+             r"\s*state\.m_rcent\s*=\s*-state\.m_eta / \(miu \* sm\) - u\.array\(\) \* \(m_G \* x - m_h\)\.array\(\)\s*;",
+      [], [("m", "Z")], "c04", ["C04"]),
+    # the outer loop `for (state.m_iters = 0; state.m_iters < max_iters; ++state.m_iters)`
+    K("src_c04_outer_cond", "src/program/solver.cpp",
+      _SWI + r".*?for\s*\(state\.m_iters\s*=\s*0\s*;\s*(state\.m_iters\s*<\s*max_iters)\s*;\s*\+\+state\.m_iters\)",
+      [(r"state\.m_iters", "iters")], [("iters", "Z"), ("max_iters", "Z")], "c04", ["C04"]),
+    # the two backtracking loops `for (iter = 0; iter < max_lsearch_iters; ++iter)` and their exhaustion tests
+    K("src_c04_ls_start1", "src/program/solver.cpp",
+      r"for\s*\(iter\s*=\s*(\d+)\s*;\s*iter\s*<\s*max_lsearch_iters\s*;\s*\+\+iter\)", [], [], "c04", ["C04"], pick=0),
+    K("src_c04_ls_start2", "src/program/solver.cpp",
+      r"for\s*\(iter\s*=\s*(\d+)\s*;\s*iter\s*<\s*max_lsearch_iters\s*;\s*\+\+iter\)", [], [], "c04", ["C04"], pick=1),
+    K("src_c04_ls_cond1", "src/program/solver.cpp",
+      r"for\s*\(iter\s*=\s*\d+\s*;\s*(iter\s*<\s*max_lsearch_iters)\s*;\s*\+\+iter\)", [],
+      [("iter", "Z"), ("max_lsearch_iters", "Z")], "c04", ["C04"], pick=0),
+    K("src_c04_ls_cond2", "src/program/solver.cpp",
+      r"for\s*\(iter\s*=\s*\d+\s*;\s*(iter\s*<\s*max_lsearch_iters)\s*;\s*\+\+iter\)", [],
+      [("iter", "Z"), ("max_lsearch_iters", "Z")], "c04", ["C04"], pick=1),
+    K("src_c04_ls_exhausted1", "src/program/solver.cpp",
+      r"\bif\s*\((iter\s*==\s*max_lsearch_iters)\)", [], [("iter", "Z"), ("max_lsearch_iters", "Z")], "c04", ["C04"], pick=0),
+    K("src_c04_ls_exhausted2", "src/program/solver.cpp",
+      r"\bif\s*\((iter\s*==\s*max_lsearch_iters)\)", [], [("iter", "Z"), ("max_lsearch_iters", "Z")], "c04", ["C04"], pick=1),
+    # stage 1: `if ((G * (state.m_x + s * dx) - h).maxCoeff() < 0.0) break;`
+    K("src_c04_stage1_ok", "src/program/solver.cpp",
+      r"\bif\s*\((\(G \* \(state\.m_x \+ s \* dx\) - h\)\.maxCoeff\(\)\s*<\s*0\.0)\)\s*\{\s*break\s*;",
+      [(r"\(G \* \(state\.m_x \+ s \* dx\) - h\)\.maxCoeff\(\)", "mgxh"), (r"0\.0", "0")],
+      [("mgxh", "Z")], "c04", ["C04"]),
+    # stage 2: `program.update(x + s dx, u + s du, v + s dv, miu, state); if (state.residual() <= (1.0 - alpha * s) * r0) break;`
+    K("src_c04_stage2_ok", "src/program/solver.cpp",
+      r"program\.update\(state\.m_x \+ s \* dx, state\.m_u \+ s \* du, state\.m_v \+ s \* dv, miu, state\)\s*;"
+      r"\s*if\s*\((state\.residual\(\)\s*<=\s*\(1\.0 - alpha \* s\) \* r0)\)\s*\{\s*break\s*;",
+      [(r"state\.residual\(\)", "res"), (r"\(1\.0 - alpha \* s\) \* r0", "bound")],
+      [("res", "Z"), ("bound", "Z")], "c04", ["C04"]),
+    # the revert branch: `if (state.residual() > r0) program.update(state.m_x, state.m_u, state.m_v, miu, state);`
+    K("src_c04_revert", "src/program/solver.cpp",
+      r"\bif\s*\((state\.residual\(\)\s*>\s*r0)\)\s*\{\s*program\.update\(state\.m_x, state\.m_u, state\.m_v, miu, state\)\s*;",
+      [(r"state\.residual\(\)", "res")],
+      [("res", "Z"), ("r0", "Z")], "c04", ["C04"]),
+    # exit 5: `else if (std::max({prev_eta - curr_eta, prev_rdual - curr_rdual, prev_rprim - curr_rprim}) < epsilon0)`
+    K("src_c04_precise", "src/program/solver.cpp",
+      r"else\s+if\s*\((std::max\(\{prev_eta - curr_eta, prev_rdual - curr_rdual, prev_rprim - curr_rprim\}\)\s*<\s*epsilon0)\)",
+      [(r"prev_eta - curr_eta", "deta"), (r"prev_rdual - curr_rdual", "drdual"), (r"prev_rprim - curr_rprim", "drprim"),
+       (r"std::max\(\{\s*(\w+)\s*,\s*(\w+)\s*,\s*(\w+)\s*\}\)", r"std::max(std::max(\1, \2), \3)")],
+      [("deta", "Z"), ("drdual", "Z"), ("drprim", "Z"), ("epsilon0", "Z")], "c04", ["C04"]),
+    # text pins (value 1; any edit of the pinned vector expression makes the kernel untranslatable): the back-substitution,
+    # the two arguments handed to program.solve, the blocks program_t::solve writes
+    K("src_c04_pin_du", "src/program/solver.cpp",
+      r"\bdu\s*=\s*(\(state\.m_rcent\.array\(\) - state\.m_u\.array\(\) \* \(G \* dx\)\.array\(\)\) / Gxh\.array\(\))\s*;",
+      [(r"^.*$", "1")], [], "c04", ["C04"]),
+    K("src_c04_pin_solve_args", "src/program/solver.cpp",
+      r"const auto Gxh\s*=\s*G \* state\.m_x - h\s*;\s*program\.solve\((G\.transpose\(\) \* \(state\.m_u\.array\(\) / Gxh\.array\(\)\)\.matrix\(\)\.asDiagonal\(\) \* G\.matrix\(\),"
+      r"\s*state\.m_rdual \+ G\.transpose\(\) \* \(state\.m_rcent\.array\(\) / Gxh\.array\(\)\)\.matrix\(\), state\.m_rprim)\)\s*;",
+      [(r"^.*$", "1")], [], "c04", ["C04"]),
+    K("src_c04_pin_lmat", "src/program/solver.cpp",
+      r"if\s*\(!m_Q\.size\(\)\)\s*\{\s*(m_lmat\.block\(0, 0, n, n\)\s*=\s*-hessvar\s*;\s*\}\s*else\s*\{\s*m_lmat\.block\(0, 0, n, n\)\s*=\s*Q\(\) - hessvar\s*;\s*\}"
+      r"\s*m_lvec\.segment\(0, n\)\s*=\s*-rdual\s*;\s*m_lvec\.segment\(n, p\)\s*=\s*-rprim\s*;)",
+      [(r"^.*$", "1")], [], "c04", ["C04"]),
+    K("src_c04_pin_sol_split", "src/program/solver.cpp",
+      r"\b(dx\s*=\s*program\.m_lsol\.segment\(0, n\)\s*;\s*dv\s*=\s*program\.m_lsol\.segment\(n, p\)\s*;)",
+      [(r"^.*$", "1")], [], "c04", ["C04"]),
+    K("src_c04_pin_state_update", "src/program/solver.cpp",
+      r"(state\.m_x\s*\+=\s*s \* dx\s*;\s*state\.m_u\s*\+=\s*s \* du\s*;\s*state\.m_v\s*\+=\s*s \* dv\s*;)",
+      [(r"^.*$", "1")], [], "c04", ["C04"]),
+]
